@@ -351,10 +351,50 @@ Definition kind_ok (op : N) (fs : fsres) : bool :=
 Definition reply_fits (q : wfreq) (cap : N) (fs : fsres) : Prop :=
   match fs with
   | FRead d => 16 + blen d <= cap
-  | FDirents ds =>
-    names_ok ds = true /\ 16 + blen (fill_dirents ds (q_op q =? 44) (fld q "size") []) <= cap
+  | FDirents ds => names_ok ds = true
   | _ => True
   end.
+
+(* do_readdir's gate since fix 65c0776: the reply buffer has room for [size] bytes AND the header.
+   Once it passed, the directory records (at most [size] bytes) always fit the data writer of
+   capacity wcap - 16: the EIO branch of the model after the filesystem call is unreachable. *)
+Definition readdir_room (q : wfreq) (cap : N) : Prop :=
+  q_op q = 28 \/ q_op q = 44 -> fld q "size" + OUT_HDR <= cap.
+
+Lemma readdir_never_overruns ds plus size wcap :
+  names_ok ds = true -> size + OUT_HDR <= wcap ->
+  (wcap - OUT_HDR <? blen (fill_dirents ds plus size [])) = false.
+Proof.
+  intros Hn Hroom. destruct (fill_dirents_ok ds plus size Hn) as [Hle _]. cbv zeta in Hle.
+  apply N.ltb_ge. unfold OUT_HDR in *. lia.
+Qed.
+
+(* a READDIR / READDIRPLUS handler that reached its call passed the gate *)
+Lemma readdir_reached_room cfg h ctx r fs wcap :
+  h_opcode h = 28 \/ h_opcode h = 44 ->
+  fst (handler cfg h ctx r fs wcap) <> [] -> u32 16 r + OUT_HDR <= wcap.
+Proof.
+  intros Hop. unfold handler.
+  assert (Hf : find_handler (h_opcode h) handlers = Some (h_readdir_readdirplus (h_opcode h))).
+  { destruct Hop as [-> | ->]; reflexivity. }
+  rewrite Hf. unfold h_readdir_readdirplus. cbv beta delta [with_obj].
+  destruct (read_obj 40 r) as [[s r']|] eqn:E; [|not_reached].
+  apply read_obj_some in E. destruct E as [-> ->]. cbv zeta. rewrite u32_firstn by (cbn; lia).
+  destruct (N.ltb_spec wcap (u32 16 r + OUT_HDR)) as [Hlt|Hge]; [not_reached|]. intros _. exact Hge.
+Qed.
+
+Theorem readdir_reply_is_listing cfg h ctx r wcap ds :
+  h_opcode h = 28 \/ h_opcode h = 44 -> names_ok ds = true ->
+  fst (handler cfg h ctx r (FDirents ds) wcap) <> [] ->
+  snd (handler cfg h ctx r (FDirents ds) wcap) =
+    ReplySplit (fill_dirents ds (h_opcode h =? 44) (u32 16 r) []).
+Proof.
+  intros Hop Hn Hreach.
+  pose proof (readdir_reached_room cfg h ctx r _ wcap Hop Hreach) as Hroom.
+  apply (handler_post cfg h ctx r _ wcap _ Hreach).
+  destruct Hop as [-> | ->]; cbv beta iota zeta delta [post_action readdir_action]; cbn [N.eqb Pos.eqb];
+    rewrite (readdir_never_overruns _ _ _ _ Hn Hroom); reflexivity.
+Qed.
 
 Ltac enum_op H k Hin Hk :=
   apply existsb_exists in H; destruct H as [k [Hin Hk]]; apply N.eqb_eq in Hk; cbn [In] in Hin;
@@ -373,11 +413,11 @@ Ltac opfalse Hk := rewrite Hk; reflexivity.
 
 Theorem post_action_roundtrip q minor cap fs a :
   q_unique q < 2 ^ 64 -> cap < 2 ^ 32 ->
-  kind_ok (q_op q) fs = true -> reply_fits q cap fs ->
+  kind_ok (q_op q) fs = true -> reply_fits q cap fs -> readdir_room q cap ->
   post_action (q_op q) minor cap (fld q "size") fs = Some a -> action_len a <= cap ->
   exists p, action_msg (q_unique q) a = Some p /\ reply_ok q minor fs p = true.
 Proof.
-  intros Hu Hcap Hkind Hfits Hpost Hlen. unfold kind_ok in Hkind.
+  intros Hu Hcap Hkind Hfits Hroom Hpost Hlen. unfold kind_ok in Hkind.
   destruct fs as [e| |e|st s n|v|n|fh o pt|e fh o pt|d|s|l|ds|w|res d|n].
   - (* FErr *)
     enum_op Hkind k Hin Hk; post_eval Hk Hpost; apply some_inj in Hpost; subst a;
@@ -423,18 +463,20 @@ Proof.
     enum_op Hkind k Hin Hk; post_eval Hk Hpost; apply some_inj in Hpost; subst a;
       (eexists; split; [reflexivity|apply rt_lock; exact Hu]).
   - (* FDirents *)
-    cbn [reply_fits] in Hfits. destruct Hfits as [Hn Hf].
-    enum_op Hkind k Hin Hk; post_eval Hk Hpost; cbv zeta in Hpost; rewrite Hk in Hf; cbn [N.eqb Pos.eqb] in Hf.
-    + destruct (N.ltb_spec (cap - OUT_HDR) (blen (fill_dirents ds false (fld q "size") []))) as [Hlt|_];
-        [unfold OUT_HDR in Hlt; lia|].
+    cbn [reply_fits] in Hfits. rename Hfits into Hn. unfold readdir_room in Hroom.
+    enum_op Hkind k Hin Hk; post_eval Hk Hpost; cbv zeta in Hpost.
+    + specialize (Hroom (or_introl Hk)).
+      rewrite (readdir_never_overruns ds false _ cap Hn Hroom) in Hpost.
+      destruct (fill_dirents_ok ds false (fld q "size") Hn) as [Hle _]. cbv zeta in Hle.
       apply some_inj in Hpost; subst a. eexists; split; [reflexivity|].
       pose proof (rt_dirents q minor ds Hu Hn) as H. cbv zeta in H. rewrite Hk in H. cbn [N.eqb Pos.eqb] in H.
-      apply H. lia.
-    + destruct (N.ltb_spec (cap - OUT_HDR) (blen (fill_dirents ds true (fld q "size") []))) as [Hlt|_];
-        [unfold OUT_HDR in Hlt; lia|].
+      apply H. unfold OUT_HDR in Hroom. lia.
+    + specialize (Hroom (or_intror Hk)).
+      rewrite (readdir_never_overruns ds true _ cap Hn Hroom) in Hpost.
+      destruct (fill_dirents_ok ds true (fld q "size") Hn) as [Hle _]. cbv zeta in Hle.
       apply some_inj in Hpost; subst a. eexists; split; [reflexivity|].
       pose proof (rt_dirents q minor ds Hu Hn) as H. cbv zeta in H. rewrite Hk in H. cbn [N.eqb Pos.eqb] in H.
-      apply H. lia.
+      apply H. unfold OUT_HDR in Hroom. lia.
   - (* FInit *) cbn [existsb] in Hkind. discriminate.
   - (* FIoctl *)
     enum_op Hkind k Hin Hk; post_eval Hk Hpost;  apply some_inj in Hpost; subst a; cbn [action_len] in Hlen;
@@ -470,7 +512,9 @@ Proof.
   destruct Hsome as [a Ha].
   pose proof (handler_post cfg h ctx r fs cap a Hreach) as Hp. rewrite Hop, Hsize in Hp. specialize (Hp Ha).
   rewrite Hp in *.
-  destruct (post_action_roundtrip q (cfg_minor cfg) cap fs a Hu Hcap Hkind Hfits Ha Hlen) as [p [Hm Hr]].
+  assert (Hroom : readdir_room q cap).
+  { intro Hq. rewrite <- Hsize. apply (readdir_reached_room cfg h ctx r fs cap); [rewrite Hop; exact Hq|exact Hreach]. }
+  destruct (post_action_roundtrip q (cfg_minor cfg) cap fs a Hu Hcap Hkind Hfits Hroom Ha Hlen) as [p [Hm Hr]].
   exists p. split; [|exact Hr]. apply perform_packet; assumption.
 Qed.
 
@@ -492,9 +536,8 @@ Theorem entry_paths_agree :
   (forall cfg h ctx r wcap ds,
      h_opcode h = 44 ->
      fst (handler cfg h ctx r (FDirents ds) wcap) <> [] ->
-     let data := fill_dirents ds true (u32 16 r) [] in
-     blen data <= wcap - 16 ->
-     snd (handler cfg h ctx r (FDirents ds) wcap) = ReplySplit data) /\
+     names_ok ds = true ->
+     snd (handler cfg h ctx r (FDirents ds) wcap) = ReplySplit (fill_dirents ds true (u32 16 r) [])) /\
   (forall ds size, names_ok ds = true ->
      fill_dirents ds true size [] = flat_map (rec_bytes true) (fitting_prefix true ds size)) /\
   (forall d e, rec_bytes true (d, e) = entry_out e (e_attr_flags e) ++ rec_bytes false (d, e)).
@@ -507,10 +550,8 @@ Proof.
     cbn [N.eqb Pos.eqb andb] in Hc. rewrite Hc. reflexivity.
   - intros cfg h ctx r wcap e fh o pt Hop Hreach.
     apply (handler_post cfg h ctx r _ wcap _ Hreach). rewrite Hop. reflexivity.
-  - intros cfg h ctx r wcap ds Hop Hreach data Hfit.
-    apply (handler_post cfg h ctx r _ wcap _ Hreach). rewrite Hop.
-    cbv beta iota zeta delta [post_action readdir_action]. fold data.
-    destruct (N.ltb_spec (wcap - OUT_HDR) (blen data)) as [Hlt|_]; [unfold OUT_HDR in Hlt; lia|]. reflexivity.
+  - intros cfg h ctx r wcap ds Hop Hreach Hn.
+    rewrite (readdir_reply_is_listing cfg h ctx r wcap ds (or_intror Hop) Hn Hreach). rewrite Hop. reflexivity.
   - intros ds size Hn. apply fill_dirents_recs. exact Hn.
   - intros d e. unfold rec_bytes, dirent_bytes. cbn [fst snd app]. reflexivity.
 Qed.
@@ -576,7 +617,9 @@ Proof.
   destruct Hsome as [a Ha].
   pose proof (handler_post cfg h ctx r fs cap a Hreach) as Hp. rewrite Hop, Hsize in Hp. specialize (Hp Ha).
   rewrite Hp in *.
-  destruct (post_action_roundtrip q (cfg_minor cfg) cap fs a Hu Hcap Hkind Hfits Ha Hlen) as [p [Hm Hr]].
+  assert (Hroom : readdir_room q cap).
+  { intro Hq. rewrite <- Hsize. apply (readdir_reached_room cfg h ctx r fs cap); [rewrite Hop; exact Hq|exact Hreach]. }
+  destruct (post_action_roundtrip q (cfg_minor cfg) cap fs a Hu Hcap Hkind Hfits Hroom Ha Hlen) as [p [Hm Hr]].
   rewrite (perform_mem_virtio cap (q_unique q) a p Hcap Hm Hlen). exact Hr.
 Qed.
 
